@@ -211,8 +211,19 @@ func (t c01Tuple) equal(o c01Tuple) bool {
 }
 
 func (t c01Tuple) String() string {
-	return fmt.Sprintf("rcode=%s an=%d%.120q ns=%d%.120q ex=%d%.120q", dns.RcodeToString[t.Rcode],
-		len(t.An), t.An, len(t.Ns), t.Ns, len(t.Ex), t.Ex)
+	return fmt.Sprintf("rcode=%s an=%s ns=%s ex=%s", dns.RcodeToString[t.Rcode], c01Brief(t.An), c01Brief(t.Ns), c01Brief(t.Ex))
+}
+
+// c01Brief abbreviates a section for messages.
+func c01Brief(rrs []string) string {
+	switch len(rrs) {
+	case 0:
+		return "[]"
+	case 1, 2:
+		return fmt.Sprintf("%.150q", rrs)
+	default:
+		return fmt.Sprintf("[%.150q ... %d records]", rrs[0], len(rrs))
+	}
 }
 
 func (t c01Tuple) empty() bool { return len(t.An)+len(t.Ns)+len(t.Ex) == 0 }
@@ -767,6 +778,34 @@ func c01ByteWire(c c01ByteCase) (wire []byte) {
 	}
 }
 
+// c01ByteCases enumerates alphabet (iii).  all selects every octet value
+// instead of the five adversarial ones.
+func c01ByteCases(all bool, emit func(c01ByteCase)) {
+	for si, seed := range c01Seeds() {
+		for off := 0; off < len(seed); off++ {
+			emit(c01ByteCase{Seed: si, Op: "cut", Off: off})
+		}
+		for off := 0; off < len(seed); off++ {
+			if all {
+				for v := 0; v < 256; v++ {
+					if byte(v) != seed[off] {
+						emit(c01ByteCase{Seed: si, Op: "sub", Off: off, Val: byte(v)})
+					}
+				}
+
+				continue
+			}
+			seen := map[byte]bool{seed[off]: true}
+			for _, v := range []byte{0x00, 0xFF, 0xC0, 0x3F, seed[off] ^ 0x80} {
+				if !seen[v] {
+					seen[v] = true
+					emit(c01ByteCase{Seed: si, Op: "sub", Off: off, Val: v})
+				}
+			}
+		}
+	}
+}
+
 // ---- Test --------------------------------------------------------------------------
 
 func TestVerifC01(t *testing.T) {
@@ -795,12 +834,26 @@ func TestVerifC01(t *testing.T) {
 	r.Bound("seam_question_names", len(c01WireNames))
 	r.Bound("seam_question_qtypes", len(c01Qtypes))
 	r.Bound("seam_question_qclasses", len(c01Qclasses))
+	allValues := vrt.Pick(r, 512, 65536)
+	r.Bound("seam_question_all_qtypes_qclasses_below", allValues)
 	vrt.Part(r, "seam-question",
 		func(emit func(c01QuestionCase)) {
 			for n := range c01WireNames {
 				for _, qt := range c01Qtypes {
 					for _, qc := range c01Qclasses {
 						emit(c01QuestionCase{Name: n, Qtype: qt, Qclass: qc})
+					}
+				}
+			}
+			// Every qtype and every qclass, for the names 2 (mixed case), 4
+			// (maximal length), 5 (compression pointer), 6 (NXDOMAIN).
+			for _, n := range []int{2, 4, 5, 6} {
+				for v := 0; v < allValues; v++ {
+					for _, qc := range c01Qclasses {
+						emit(c01QuestionCase{Name: n, Qtype: uint16(v), Qclass: qc})
+					}
+					for _, qt := range c01Qtypes {
+						emit(c01QuestionCase{Name: n, Qtype: qt, Qclass: uint16(v)})
 					}
 				}
 			}
@@ -812,27 +865,9 @@ func TestVerifC01(t *testing.T) {
 		})
 
 	// Tier A (iii): byte level.
-	subs := []byte{0x00, 0xFF, 0xC0, 0x3F}
 	r.Bound("seam_byte_seeds", len(c01Seeds()))
-	r.Bound("seam_byte_ops", "every prefix truncation; every offset x {00,FF,C0,3F,b^80}")
-	vrt.Part(r, "seam-bytes",
-		func(emit func(c01ByteCase)) {
-			for si, seed := range c01Seeds() {
-				for off := 0; off < len(seed); off++ {
-					emit(c01ByteCase{Seed: si, Op: "cut", Off: off})
-				}
-				for off := 0; off < len(seed); off++ {
-					seen := map[byte]bool{seed[off]: true}
-					for _, v := range append(append([]byte(nil), subs...), seed[off]^0x80) {
-						if seen[v] {
-							continue
-						}
-						seen[v] = true
-						emit(c01ByteCase{Seed: si, Op: "sub", Off: off, Val: v})
-					}
-				}
-			}
-		},
+	r.Bound("seam_byte_ops", vrt.Pick(r, "every prefix truncation; every offset x {00,FF,C0,3F,b^80}", "every prefix truncation; every offset x every other octet value"))
+	vrt.Part(r, "seam-bytes", func(emit func(c01ByteCase)) { c01ByteCases(r.Thorough(), emit) },
 		func(c c01ByteCase) []vrt.Finding { return c01CheckSeam(r, c01ByteWire(c)) })
 
 	c01TierB(r)
